@@ -25,7 +25,7 @@ RULE = ("(template, substrate, direction, strategy, hydrogen mode) with template
         "hand-made rule, or a synthetic ITS graph planted on a random host; non-trivial = at least one glued result and a "
         "template with >= 2 changed bonds; distinct = distinct (template, substrate, configuration)")
 EXHAUSTIVE = {"quick": False, "thorough": False}
-EXPLANATION = ("85 theorems (coq/props/C03.v) about the Gallina model of SynReactor._glue_graph/_node_glue, _invert_template, _explicit_h, "
+EXPLANATION = ("86 theorems (coq/props/C03.v) about the Gallina model of SynReactor._glue_graph/_node_glue, _invert_template, _explicit_h, "
                "h_to_explicit and SynRule.__init__ (implicit-template mode; default mode for templates without explicit H atoms): for every host, rule and valid match the reactant side of the glued ITS "
                "(on its_decompose, what _to_smarts serialises) is the substrate; element counts incl. hydrogen and total charge agree on both "
                "sides for a balanced rule (and differ by exactly the rule's imbalance otherwise); changed bonds = image of the rule's bonds with "
@@ -1159,7 +1159,7 @@ def gen_cases(tier, rng):
     return prepare_all(cases)
 
 
-LEVEL_TEXT = ("Machine-checked proof (Coq, 85 theorems, all closed under the global context) over an executable model of gluing a rule onto a "
+LEVEL_TEXT = ("Machine-checked proof (Coq, 86 theorems, all closed under the global context) over an executable model of gluing a rule onto a "
               "substrate along a match (SynReactor._glue_graph/_node_glue), _invert_template, _explicit_h, h_to_explicit and SynRule.__init__ "
               "(implicit-template mode; default mode for templates without explicit hydrogen atoms): for EVERY substrate graph, rule graph and valid match (boolean hypotheses wf_hostb, wf_rcb, match_rcb) "
               "(a) the reactant molecule graph of the glued ITS is the substrate (same atoms in the same order, same bonds), (b) every element "
@@ -1198,8 +1198,11 @@ LEVEL_TEXT = ("Machine-checked proof (Coq, 85 theorems, all closed under the glo
               "never raises (C03_default_glued_exact: every hydrogen-transfer group is exact, via a hydrogen ledger), every read returns the specified value, "
               "and every graph returned is a balanced instance of the prepared rule. The same end to end for the implicit-template mode "
               "(C03_its_list_implicit_end_to_end) and SynRule objects applied backwards (C03_its_list_synrule_object_backward).")
-LEVEL_NOTE = ("Trusted: Coq kernel + vm_compute; the hand-written model, the statement vocabulary (proof/C03_Spec.v) and the harness encoders; RDKit "
-              "parsing and VF2 matching are oracle inputs (every mapping used is re-validated by the model's match_okb / match_rcb and the theorems' "
-              "hypotheses are recomputed on every case). Modelled and compared but NOT proved: default-mode rule preparation (_strip_explicit_h), "
-              "re-matching of explicit-hydrogen patterns. Tested only: serialisation through RDKit (_to_smarts) — returned strings are re-parsed "
-              "and compared by the oracle.")
+LEVEL_NOTE = ("Trusted: Coq kernel + vm_compute; the hand-written models (C03_Model.v, C03_Order.v, C03_Reactor.v), the statement vocabulary "
+              "(proof/C03_Spec.v, C03_ReactorSpec.v) and the harness encoders; oracle inputs: RDKit parsing, VF2 matching and re-matching (every mapping "
+              "used is re-validated by the model's match_okb / match_rcb), the visiting order of each hydrogen-transfer group inside _explicit_h "
+              "(a Python set; used only for a component with exactly its atoms), RDKit's graph_to_smi on both sides of every result. The theorems' "
+              "hypotheses are booleans recomputed on every case (wf_hostb, wf_rcb, match bits, rule_link_okb, default_tpl_okb, on scripted cases "
+              "hyps_okb / matcher_hyps_okb). Premises, not proved: the matcher's contract (C06) and completeness; that RDKit writes the graph it is "
+              "given (returned strings are re-parsed and compared by the oracle). Default-mode theorems need templates with the same element on both "
+              "sides of every atom, no h_pairs of their own and tpl_condition (82 % of the default-mode runs of the quick tier).")
